@@ -380,7 +380,7 @@ theorem nothing_sent_of {s : St} (h : s.sentRev.toList.map Prod.snd = [[]] ∨ s
     (w : Nat) : s.sent w = [] := by
   have : s.sentRev.get w = [] := AMap.get_eq_of_forall s.sentRev [] rfl (fun p hp => by
     have hm : p.2 ∈ s.sentRev.toList.map Prod.snd := List.mem_map.mpr ⟨p, hp, rfl⟩
-    rcases h with h | h <;> rw [h] at hm <;> simp at hm) w
+    rcases h with h | h <;> rw [h] at hm <;> simpa using hm) w
   simp [St.sent, this]
 
 /-- a schedule after which send `1` was accepted, nobody is in progress, the queue is empty and
